@@ -36,16 +36,17 @@ def planOf (p : Gen.DynPlanFn.DynamicChannelPlan) : DynPlan :=
 def regOf (r : RegionId) : Gen.DynPlanFn.DynRegion :=
   ⟨numJoinChannels r, datarates r, fun f => frequencyValid r f.toNat⟩
 
-/-- the `ChannelMask` methods are the model's, on a 9-byte mask and a channel index below 16 -/
+/-- the `ChannelMask` methods are the model's, on a 9-byte mask (of octets) and a channel index below 16;
+discharged for the regenerated `ChannelMask` methods by `TieA.DynMask.genMops_ok` (builder R) -/
 def MaskOk (mops : Gen.DynPlanFn.MaskFns) : Prop :=
-  ∀ (m : Gen.DynPlanFn.ChannelMask) (i : Int), 0 ≤ i → i < 16 → m.bytes.length = 9 →
+  ∀ (m : Gen.DynPlanFn.ChannelMask) (i : Int), 0 ≤ i → i < 16 → m.bytes.length = 9 → (∀ x ∈ m.bytes, 0 ≤ x ∧ x ≤ 255) →
     mops.is_enabled m i = (Mask.isEnabled (natsOf m.bytes) i.toNat).toOption ∧
     ∀ b, (mops.set_channel m i b).map (fun m' => natsOf m'.bytes) = (Mask.setChannel (natsOf m.bytes) i.toNat b).toOption
 
-/-- 16 slots, 9 mask bytes, non-negative frequencies -/
+/-- 16 slots, 9 mask bytes (octets), non-negative frequencies -/
 def PlanWF (p : Gen.DynPlanFn.DynamicChannelPlan) : Prop :=
   p.channels.length = 16 ∧ p.channel_mask.bytes.length = 9 ∧
-  ∀ c, some c ∈ p.channels → 0 ≤ c.frequency
+  (∀ c, some c ∈ p.channels → 0 ≤ c.frequency) ∧ ∀ x ∈ p.channel_mask.bytes, 0 ≤ x ∧ x ≤ 255
 
 /-- `DataRateRange::max_data_rate` / `min_data_rate`: the high and the low nibble, for every byte -/
 theorem dr_range_fields : ∀ k : Fin 256,
@@ -81,7 +82,7 @@ theorem tieA_channel_dl_update (mops : Gen.DynPlanFn.MaskFns) (hm : MaskOk mops)
     (Gen.DynPlanFn.DynamicChannelPlan.channel_dl_update (regOf rs.id) mops p index freq).map
         (fun o => (o.1, { rs with plan := .dyn (planOf o.2) }))
       = (channelDlUpdate rs index.toNat freq.toNat).toOption := by
-  obtain ⟨hc, hmk, hfr⟩ := hw
+  obtain ⟨hc, hmk, hfr, hoct⟩ := hw
   have hN : Gen.DynPlanFn.NUM_CHANNELS_DYNAMIC = 16 := rfl
   unfold Gen.DynPlanFn.DynamicChannelPlan.channel_dl_update
   simp only [channelDlUpdate, hplan, hN, Gen.DynPlanFn.DynamicChannelPlan.frequency_valid, regOf]
@@ -90,7 +91,7 @@ theorem tieA_channel_dl_update (mops : Gen.DynPlanFn.MaskFns) (hm : MaskOk mops)
     simp [h16, h16', Except.toOption, pure, Except.pure, hplan]
     cases rs; simp_all
   · have h16' : ¬ index.toNat ≥ 16 := by omega
-    obtain ⟨hen, _⟩ := hm p.channel_mask index hi (by omega) hmk
+    obtain ⟨hen, _⟩ := hm p.channel_mask index hi (by omega) hmk hoct
     simp only [h16, h16', decide_false, Bool.false_eq_true, if_false, hen, planOf]
     obtain ⟨en, hen'⟩ := isEnabled_ok (natsOf p.channel_mask.bytes) index.toNat (by simp [natsOf, hmk]) (by omega)
     have hidx : Rt.idx p.channels index = p.channels[index.toNat]? := by simp [Rt.idx]; omega
@@ -136,7 +137,7 @@ theorem tieA_handle_new_channel (mops : Gen.DynPlanFn.MaskFns) (hm : MaskOk mops
     (Gen.DynPlanFn.DynamicChannelPlan.handle_new_channel (regOf rs.id) mops p index freq dr).map
         (fun o => (o.1, { rs with plan := .dyn (planOf o.2) }))
       = (handleNewChannel rs index.toNat freq.toNat (dr.map (fun d => d._0.toNat))).toOption := by
-  obtain ⟨hc, hmk, hfr⟩ := hw
+  obtain ⟨hc, hmk, hfr, hoct⟩ := hw
   have hN : Gen.DynPlanFn.NUM_CHANNELS_DYNAMIC = 16 := rfl
   unfold Gen.DynPlanFn.DynamicChannelPlan.handle_new_channel
   simp only [handleNewChannel, hplan, hN, Gen.DynPlanFn.DynamicChannelPlan.frequency_valid, regOf]
@@ -149,7 +150,7 @@ theorem tieA_handle_new_channel (mops : Gen.DynPlanFn.MaskFns) (hm : MaskOk mops
       simp [hj, hj', h16, h16', Except.toOption, pure, Except.pure]; cases rs; simp_all [planOf]
     · have h16' : ¬ index.toNat ≥ 16 := by omega
       have hlt : index.toNat < p.channels.length := by omega
-      obtain ⟨_, hsetc⟩ := hm p.channel_mask index hi (by omega) hmk
+      obtain ⟨_, hsetc⟩ := hm p.channel_mask index hi (by omega) hmk hoct
       have hsi : ∀ v, Rt.setIdx p.channels index v = some (p.channels.set index.toNat v) := by
         intro v; simp only [Rt.setIdx]; rw [if_pos ⟨hi, hlt⟩]
       simp only [hj, hj', h16, h16', decide_false, Bool.false_eq_true, if_false]
@@ -238,7 +239,7 @@ def exMops : Gen.DynPlanFn.MaskFns where
   is_enabled m i := (Mask.isEnabled (natsOf m.bytes) i.toNat).toOption
 
 theorem exMops_ok : MaskOk exMops := by
-  intro m i _ _ _
+  intro m i _ _ _ _
   refine ⟨rfl, fun b => ?_⟩
   simp only [exMops, Option.map_map]
   cases Mask.setChannel (natsOf m.bytes) i.toNat b with
@@ -251,7 +252,11 @@ def exPlan : Gen.DynPlanFn.DynamicChannelPlan :=
    ⟨List.replicate 9 255⟩⟩
 
 example : PlanWF exPlan := by
-  refine ⟨by decide, by decide, ?_⟩
+  refine ⟨by decide, by decide, ?_, ?_⟩
+  rotate_left
+  · intro x hx
+    have := (List.mem_replicate.mp hx).2
+    omega
   intro c hc
   simp only [exPlan, List.mem_append, List.mem_cons, List.mem_replicate, Option.some.injEq] at hc
   rcases hc with (h | h | h | h) | h
